@@ -8,7 +8,9 @@
   `(timestamp, sequence)`: a list kept sorted with *stable* insertion (a new event goes after
   every queued event whose timestamp is `≤` its own) and `pop` = head.  `seq` is the scheduling
   order (the repaired `Event.sequence`); it is never compared by the correspondence.
-  `GradysModel/Heap.lean` contains the faithful port of `heapq.py`.
+  `GradysModel/Heap.lean` contains the faithful port of `heapq.py` and the event loop `HEL` on it;
+  `C03_heapq_refines_sorted_queue` proves that `HEL` and the `EL` below give the same outputs on
+  every history of API calls (so the sorted list is not an assumption about `heapq`).
 -/
 
 structure Ev (K : Type) where
